@@ -38,8 +38,8 @@ func expectDeltas(prop string, c *chainkit.Chain, pre map[util.Uint160]int64, wa
 func TestC19Main(t *testing.T) {
 	theT = t
 	col := ev.New("C19", "main",
-		"rapid state machine on the main-chain NeoFS+Processing contracts (with Notary: Alphabet = chain committee of 1 or 4 keys; without Notary: 1..4 stored keys): GAS deposits with amounts {-1,0,1,random,9000 GAS-1,9000 GAS,9000 GAS+1} and data {nil, empty, 20 bytes, 19, 21, the 2-byte ignore marker, 2 other bytes, an integer}; direct onNEP17Payment calls and payments in a foreign token; withdraw 0..9001 with/without the user's witness under changing WithdrawFee; cheque by the Alphabet / by others (Notary mode); candidate registration under changing fee; per transaction the exact GAS deltas of all parties (fees isolated on a separate payer), the Deposit/Withdraw/Cheque notifications and after every step contract balance = received - cheques; non-trivial = history with an accepted deposit, a refused deposit at a boundary and a withdraw or cheque",
-		"transaction fees are paid by a separate account", "vote collection without Notary is C17; here the non-Notary mode only checks the per-key withdraw fee")
+		"rapid state machine on the main-chain NeoFS+Processing contracts (with Notary: Alphabet = chain committee of 1 or 4 keys; without Notary: 1..4 stored keys): GAS deposits with amounts {-1,0,1,random,9000 GAS-1,9000 GAS,9000 GAS+1} and data {nil, empty, 20 bytes, 19, 21, the 2-byte ignore marker, 2 other bytes, an integer}; direct onNEP17Payment calls and payments in a foreign token; withdraw 0..9001 with/without the user's witness under changing WithdrawFee; cheque by the Alphabet / by others (Notary mode) and approved by single votes of the stored keys in generated order (without Notary: paid exactly by the vote completing 2k/3+1, with another ballot pending, with a vote sent again afterwards); candidate registration under changing fee; per transaction the exact GAS deltas of all parties (fees isolated on a separate payer), the Deposit/Withdraw/Cheque notifications and after every step contract balance = received - cheques; non-trivial = history with an accepted deposit, a refused deposit at a boundary and a withdraw or cheque",
+		"transaction fees are paid by a separate account", "vote collection without Notary is C17; here the non-Notary mode checks the per-key withdraw fee and that a voted cheque is paid exactly once")
 	runRapid(t, col, func(rt *rapid.T, h *ev.History) {
 		notaryDisabled := rapid.IntRange(0, 2).Draw(rt, "noNotary") == 0
 		nChain := rapid.SampledFrom([]int{1, 4}).Draw(rt, "committee")
@@ -249,6 +249,58 @@ func TestC19Main(t *testing.T) {
 				}
 			case "cheque":
 				if notaryDisabled {
+					// without Notary a cheque is approved by single votes of the stored keys: it must be paid by the
+					// vote that completes 2k/3+1 distinct votes, and only by that one - also when another ballot is
+					// pending and when a vote is sent again afterwards
+					k := len(w.members)
+					thr := k*2/3 + 1
+					bal := w.c.GAS(w.neofs)
+					if bal <= 0 {
+						break
+					}
+					amount := rapid.SampledFrom([]int64{1, (bal + 1) / 2, bal}).Draw(rt, "amount")
+					id := []byte(fmt.Sprintf("cheque-%d", s))
+					if thr > 1 && rapid.Bool().Draw(rt, "otherBallotPending") {
+						o := w.c.Invoke([]neotest.Signer{w.members[0]}, w.neofs, "setConfig", []byte(fmt.Sprintf("pending-%d", s)), []byte("SomeKey"), leInt(int64(s)))
+						if !o.Halt {
+							fail("C19 harness: single setConfig vote: %s", o)
+						}
+						h.Op("member 0 opens another ballot (setConfig pending-%d)", s)
+						h.Mark("cheque-with-other-ballot-pending")
+					}
+					order := rapid.Permutation(seq(0, k)).Draw(rt, "voters")
+					votes := rapid.IntRange(1, k).Draw(rt, "votes")
+					vote := func(m int, pays bool, label string) {
+						pre := gasLedger(w.c, watch)
+						o := w.c.Invoke([]neotest.Signer{w.members[m]}, w.neofs, "cheque", id, payee, amount, []byte("lock"))
+						what := fmt.Sprintf("%s of cheque %s (%d GAS units, threshold %d of %d) by stored key %d", label, id, amount, thr, k, m)
+						h.Op("%s -> %s", what, o)
+						if !o.Halt {
+							fail("C19: %s failed: %s", what, o)
+						}
+						want := map[util.Uint160]int64{}
+						ch := chainkit.EventsNamed(o.Events, "Cheque")
+						if pays {
+							want[w.neofs], want[payee] = -amount, amount
+							cheques += amount
+							if len(ch) != 1 || chainkit.ItemInt(chainkit.ItemArr(ch[0].Item)[2]) != amount {
+								fail("C19: %s completes the approval but %d Cheque notifications were emitted", what, len(ch))
+							}
+							h.Mark("cheque-ok")
+							h.Mark("cheque-paid-by-votes")
+						} else if len(ch) != 0 {
+							fail("C19: %s does not complete an approval but a Cheque notification was emitted", what)
+						}
+						expectDeltas("C19", w.c, pre, want, names, what)
+					}
+					for j := 0; j < votes; j++ {
+						vote(order[j], j+1 == thr, fmt.Sprintf("vote %d", j+1))
+					}
+					if votes >= thr && thr > 1 && rapid.Bool().Draw(rt, "voteAgain") {
+						vote(order[rapid.IntRange(0, votes-1).Draw(rt, "again")], false, "a vote sent again after the payment")
+						h.Mark("cheque-vote-after-payment")
+					}
+					pre = gasLedger(w.c, watch)
 					break
 				}
 				bal := w.c.GAS(w.neofs)
